@@ -162,6 +162,9 @@ pub struct Pipe {
     /// the first write on this pipe is accepted whole and the first read returns everything that has arrived
     /// (Shadowsocks 2022 requires salt + fixed header in the first read; the properties exempt that boundary)
     pub first_atomic: bool,
+    /// the writer aborted its connection after writing (close with unread input: the kernel answers with RST): what it
+    /// had put on the wire is still delivered in order, then the reader gets ECONNRESET instead of end-of-stream
+    pub fin_is_rst: bool,
 }
 
 pub struct Conn {
@@ -286,6 +289,10 @@ pub struct World {
     pub first_atomic_ports: Vec<u16>,
     /// when set, every datagram handed to `send_to` is recorded as (from, to, bytes) – the wire sniffer of C12
     pub udp_capture: Option<Vec<(SocketAddr, SocketAddr, Vec<u8>)>>,
+    /// in-path attacker: datagrams whose source or destination port is listed are not delivered but parked in `udp_held`
+    /// (from, to, bytes) until the harness releases, replaces or drops them (`inject_datagram`)
+    pub udp_hold_ports: Vec<u16>,
+    pub udp_held: Vec<(SocketAddr, SocketAddr, Vec<u8>)>,
     pub dump_events: bool,
     pub frozen: bool,
 }
@@ -316,6 +323,8 @@ impl World {
             server_config: None,
             first_atomic_ports: Vec::new(),
             udp_capture: None,
+            udp_hold_ports: Vec::new(),
+            udp_held: Vec::new(),
             dump_events: std::env::var_os("VERIF_EVLOG").is_some(),
             frozen: false,
         }
@@ -411,6 +420,7 @@ impl World {
             rst_at: None,
             harness_writer,
             first_atomic: false,
+            fin_is_rst: false,
         }
     }
 
